@@ -6,8 +6,8 @@ VARIABLE hist
 GInit == SInit /\ hist = <<>>
 Step(a, A) == A /\ hist' = Append(hist, [a |-> a, kind |-> kind])
 GNext == /\ Len(hist) < MaxLen
-         /\ \/ Step("Pipe", Pipe) \/ Step("Lock", Lock) \/ Step("Commit", Commit)
-            \/ Step("Tick", Tick) \/ Step("Restart", Restart)
+         /\ \/ Step("Pipe", Pipe) \/ Step("Revoke", Revoke) \/ Step("Hand", Hand) \/ Step("Lock", Lock)
+            \/ Step("Commit", Commit) \/ Step("Tick", Tick) \/ Step("GC", GC) \/ Step("Restart", Restart)
 GSpec == GInit /\ [][GNext]_<<svars, hist>>
 Dump == Len(hist) = MaxLen => ndJsonSerialize("b_" \o ToString(TLCGet("stats").traces) \o ".ndjson", hist)
 ====
